@@ -50,16 +50,23 @@ OPEN = []
 # ---------------------------------------------------------------------------
 # case representation
 #
-# graph case:  {"kind": "graph", "graph": [[v, [succ, ...]], ...], "nodes": "int"|"str",
+# graph case:  {"kind": "graph", "graph": [[v, [succ, ...]], ...], "nodes": "int"|"str"|"mixed",
 #               "succs": "set"|"list"}          (list order = dict insertion order)
 # prec case:   {"kind": "prec", "syns": [[fam, ...], ...], "nodes": "int"|"str"}
 
 
 def enc_node(v, nodes):
+    if nodes == "mixed":
+        # vertices are arbitrary hashables (`Node = TypeVar("Node")`): mutually UNORDERABLE kinds side by side
+        return (v, f"f{v}", (v,), frozenset({v}))[v % 4]
     return v if nodes == "int" else f"f{v}"
 
 
 def dec_node(x):
+    if isinstance(x, tuple):
+        return x[0]
+    if isinstance(x, frozenset):
+        return next(iter(x))
     return x if isinstance(x, int) else int(x[1:])
 
 
@@ -195,7 +202,7 @@ def gen_graph_cases(ctx):
             yield {"kind": "graph", "graph": digraph(n, bits), "nodes": "int", "succs": "set"}
             if n >= 2:
                 yield {"kind": "graph", "graph": digraph(n, bits, order=list(range(n))[::-1]),
-                       "nodes": rng.choice(["int", "str"]), "succs": rng.choice(["set", "list"])}
+                       "nodes": rng.choice(["int", "str", "mixed"]), "succs": rng.choice(["set", "list"])}
     # 4 vertices
     if ctx.thorough or ctx.deep:
         four = range(1 << 16)
@@ -221,7 +228,7 @@ def gen_graph_cases(ctx):
         order = labels[:]
         rng.shuffle(order)
         yield {"kind": "graph", "graph": [[v, adj[v]] for v in order],
-               "nodes": rng.choice(["int", "int", "str"]), "succs": rng.choice(["set", "set", "list"])}
+               "nodes": rng.choice(["int", "int", "str", "mixed"]), "succs": rng.choice(["set", "set", "list"])}
 
 
 def gen_malformed(ctx):
